@@ -58,6 +58,23 @@ def blend (t f1 f2 : α) : α :=
   let t' := clamp01 t
   if t' == 0 then f1 else if t' == 1 then f2 else (1 - t') * f1 + t' * f2
 
+/-! ### profiles given as arrays -/
+
+/-- efit.pyx map2d:246-247 and map_vector2d:324-339: `profile = np.array(profile, np.float64)` then
+`Interpolator1DArray(profile[0, :], profile[1, :], 'cubic', 'none', 0)`.  A 2-D array is given as the list of its
+rows: row 0 is the abscissa, row 1 the ordinate, whatever the shape (no transposition, further rows ignored, **no
+shape validation**); fewer than two rows raise IndexError (`none`).  What raysect then does with the two rows
+(length ≥ 2, equal lengths, strictly increasing abscissa, else ValueError) is external. -/
+def profileRows {β : Type} (rows : List (List β)) : Option (List β × List β) :=
+  match rows with
+  | x :: f :: _ => some (x, f)
+  | _ => none
+
+/-- the same for an array of any dimension: `profile[0, :]` on a 0-d / 1-d array raises IndexError; for a 3-d array the
+slices are 2-d and raysect rejects them (ValueError) — both are `none` here. -/
+def profileOfArray {β : Type} (ndim : Nat) (rows : List (List β)) : Option (List β × List β) :=
+  if ndim = 2 then profileRows rows else none
+
 /-- `EFITEquilibrium.map2d(profile, value_outside_lcfs)(r, z)` =
 `Blend2D(outside, IsoMapper2D(psi_normalised, profile), inside_lcfs)`. -/
 def map2d (outside : α) (profile : α → α) (poly interpN : α → α → α) (r z : α) : α :=
